@@ -467,6 +467,55 @@ def canonical_spellings(prog) -> None:
             m.tree = _Spellings().visit(m.tree)
 
 
+def fuse_comprehension_loops(fn) -> int:
+    """L = [e for t in IT if c]; for x in L: BODY     (L used nowhere else)     ->     for t in IT: if c: x = e; BODY
+    A filter written as a comprehension feeding a loop is the same iteration as a guarded loop."""
+    done = 0
+    for node in ast.walk(fn):
+        for attr in ("body", "orelse", "finalbody"):
+            blk = getattr(node, attr, None)
+            if not isinstance(blk, list):
+                continue
+            i = 0
+            while i < len(blk):
+                st = blk[i]
+                if isinstance(st, ast.Assign) and len(st.targets) == 1 and isinstance(st.targets[0], ast.Name) and isinstance(st.value, (ast.ListComp, ast.GeneratorExp)) \
+                        and len(st.value.generators) == 1 and not st.value.generators[0].is_async:
+                    name = st.targets[0].id
+                    uses = [x for x in ast.walk(fn) if isinstance(x, ast.Name) and x.id == name]
+                    loop = next((s2 for s2 in blk[i + 1:] if isinstance(s2, ast.For) and isinstance(s2.iter, ast.Name) and s2.iter.id == name), None)
+                    if loop is not None and len(uses) == 2 and not loop.orelse and isinstance(loop.target, (ast.Name, ast.Tuple)):
+                        gen = st.value.generators[0]
+                        between = blk[i + 1: blk.index(loop)]
+                        # nothing between the two may depend on evaluation having happened (keep it simple: only allow no statements in between,
+                        # or statements that do not mention the names involved)
+                        inv = {x.id for x in ast.walk(st.value) if isinstance(x, ast.Name)} | {name}
+                        if all(not ({x.id for x in ast.walk(b) if isinstance(x, ast.Name)} & inv) for b in between):
+                            bind = ast.Assign(targets=[loop.target], value=st.value.elt)
+                            ast.copy_location(bind, loop)
+                            body = [bind] + loop.body
+                            for c in reversed(gen.ifs):
+                                iff = ast.If(test=c, body=body, orelse=[])
+                                ast.copy_location(iff, loop)
+                                body = [iff]
+                            new = ast.For(target=gen.target, iter=gen.iter, body=body, orelse=[])
+                            ast.copy_location(new, loop)
+                            ast.fix_missing_locations(new)
+                            for x in ast.walk(new):
+                                if not hasattr(x, "_module") and hasattr(loop, "_module"):
+                                    x._module = loop._module
+                            blk[blk.index(loop)] = new
+                            del blk[i]
+                            done += 1
+                            continue
+                i += 1
+    if done:
+        for node in ast.walk(fn):
+            for child in ast.iter_child_nodes(node):
+                child._parent = node
+    return done
+
+
 def run(prog) -> int:
     from .inline import relink
 
@@ -482,5 +531,7 @@ def run(prog) -> int:
             if isinstance(node, (ast.FunctionDef, ast.AsyncFunctionDef)):
                 split_tuple_assignments(node)
                 total += substitute_function(node)
+                if fuse_comprehension_loops(node):
+                    total += substitute_function(node)
         relink(m)
     return total
